@@ -25,6 +25,39 @@ pub fn build<const K: usize>(ops: &[Value]) -> AffTree<K> {
     t.expect("empty build script")
 }
 
+/// "pscale" scenarios: after the build every decision predicate (row and bias) is multiplied by an exact power of two,
+/// which leaves all half-spaces unchanged but makes the numbers ill-conditioned ("alt20": 2^20 for odd node indices) or
+/// tiny ("tiny60": 2^-60 for every decision). Returns the exponent per node index; recorded trees are scaled back exactly.
+pub fn apply_pscale<const K: usize>(t: &mut AffTree<K>, mode: &str) -> std::collections::HashMap<usize, i32> {
+    let mut exps = std::collections::HashMap::new();
+    let idxs: Vec<usize> = t.tree.decision_indices().collect();
+    for i in idxs {
+        let e: i32 = match mode { "alt20" => if i % 2 == 1 { 20 } else { 0 }, "tiny60" => -60, _ => 0 };
+        if e != 0 {
+            let f = 2f64.powi(e);
+            let nd = t.tree.node_value_mut(i).unwrap();
+            nd.aff.mat.mapv_inplace(|x| x * f);
+            nd.aff.bias.mapv_inplace(|x| x * f);
+            exps.insert(i, e);
+        }
+    }
+    exps
+}
+
+/// tree_json with the decisions of a pscale scenario scaled back (exact: powers of two)
+pub fn tree_json_ps<const K: usize>(t: &AffTree<K>, q: f64, exps: &std::collections::HashMap<usize, i32>) -> Value {
+    if exps.is_empty() { return tree_json(t, q); }
+    let mut c = t.clone();
+    for (i, e) in exps {
+        if let Ok(nd) = c.tree.node_value_mut(*i) {
+            let f = 2f64.powi(-*e);
+            nd.aff.mat.mapv_inplace(|x| x * f);
+            nd.aff.bias.mapv_inplace(|x| x * f);
+        }
+    }
+    tree_json(&c, q)
+}
+
 /// grid of points: integers -r..r in every coordinate, scaled by den (so the points are k/den)
 pub fn grid(dim: usize, r: i64) -> Vec<Vec<i64>> {
     let mut pts: Vec<Vec<i64>> = vec![vec![]];
